@@ -8,7 +8,7 @@ Require Import Clarabel.Base.Ops Clarabel.Base.Dyadic Clarabel.Term.Eval Clarabe
 Require Import Clarabel.Term.LemmasVerdict Clarabel.Term.LemmasCheck Clarabel.Term.LemmasCheck2
         Clarabel.Term.LemmasExp Clarabel.Term.LemmasPsd Clarabel.Term.LemmasFinal
         Clarabel.Term.LemmasAlg Clarabel.Term.Farkas Clarabel.Term.LemmasMisc
-        Clarabel.Term.FarkasGen Clarabel.Term.PairExp Clarabel.Term.PairPow Clarabel.Term.PairPsd Clarabel.Term.FarkasAll.
+        Clarabel.Term.FarkasGen Clarabel.Term.PairExp Clarabel.Term.PairPow Clarabel.Term.PairPsd Clarabel.Term.FarkasAll Clarabel.Term.LemmasRollback.
 
 Theorem C01_chk_termtest_sound :
   forall (p : prob) (tf tga tgr : dy) (x s z : list dy),
@@ -25,7 +25,7 @@ Theorem C01_run_case_solved_certified :
 Proof. exact @LemmasFinal.run_case_solved_certified. Qed.
 
 Theorem C01_all_cone_kinds_certified :
-  forall K : list coneD, forallb (certified_kind true true) K = true.
+  forall K : list coneD, forallb (certified_kind true true true) K = true.
 Proof. exact @LemmasFinal.all_kinds_certified. Qed.
 
 Theorem C01_exp_cone_enclosure_sound :
